@@ -283,6 +283,7 @@ def run(ctx):
     ctx.floor("c18.handling", "handling switches", nh, 3)
 
     check_catalog_merge(ctx, prog)
+    check_quoted_values(ctx, prog)
     # ---------------- D4
     from ..spec.bdl_schema import ROWS
     now = attr_rows(prog)
@@ -300,38 +301,8 @@ def run(ctx):
     # ---------------- D5 KyG
     kp = prog.find("hulc::kyg::parse")
     ksc = Scope(prog, kp)
-    nparse = 0
-    for sc in ksc.all_scopes():
-        for b, t in sc.body.calls():
-            nm = callee_name(t) or ""
-            if short_callee(nm) == "parse" and "str" in nm:
-                c = strip(sc.eb.call_node(t, b))
-                arg = strip(sc.operand(t["args"][0]))
-                g = (callee_name(t) and t["f"]["k"].get("g")) or []
-                if not any(x in ("f32", "f64") for x in g):
-                    continue
-                nparse += 1
-                has_replace = any(x[0] == "call" and short_callee(x[1]) == "replace" for x in walk(arg))
-                src = [show(x)[:40] for x in walk(arg) if x[0] == "proj"][:1]
-                key = "c18.kyg|float-parse|%d" % nparse
-                # element rows use ';' separated columns with decimal comma; the header/solar rows use '.'
-                idx_desc = show(arg)[:90]
-                # a parse that sits in a private helper (`parse_decimal(field)`) serves every call site of that helper
-                uses = 1
-                hroot = prog.root_of(sc.fn)
-                if hroot.id != kp.id:
-                    from ..mir import callee_id as _cid
-                    uses = max(1, sum(1 for g_ in prog.fns.values() if g_.path.startswith("hulc::kyg::") for _, t_ in g_.body.calls() if _cid(t_) == hroot.id))
-                ctx.ok("c18.kyg", key, "parse::<f32>(%s)%s%s" % (idx_desc, " via decimal-comma replacement" if has_replace else "", " (helper used at %d places)" % uses if uses > 1 else ""),
-                       sc.fn.loc(t.get("ln")), extra={"replace": has_replace, "uses": uses})
-    ctx.floor("c18.kyg", "float parses in kyg::parse", nparse, 10)
-    # every float parse of an *element* row (walls/windows/bridges: the rows that carry `,` decimals) must replace ',' -> '.'
-    from ..spec.bdl_schema import KYG_REPLACE_MIN
-    nrep = sum(i.extra.get("uses", 1) for i in ctx.instances if i.rule == "c18.kyg" and i.extra and i.extra.get("replace"))
-    if nrep < KYG_REPLACE_MIN:
-        ctx.violation("c18.kyg", "c18.kyg|decimal-comma", "only %d numeric columns go through replace(',', \".\"), reference %d: a decimal-comma value would fail to parse" % (nrep, KYG_REPLACE_MIN), kp.loc())
-    else:
-        ctx.ok("c18.kyg", "c18.kyg|decimal-comma", "%d numeric element columns accept either decimal separator" % nrep, kp.loc())
+    check_kyg_numbers(ctx, prog, kp)
+    check_kyg_optional_columns(ctx, prog, kp)
     # ElemType table
     try:
         et = prog.adt("hulc::tbl::ElemType")
@@ -455,6 +426,141 @@ def check_catalog_merge(ctx, prog, rule="c18.catalog"):
         ctx.ok(rule, rule + "|project-wins", "catalogue entries are added with entry(name).or_insert(..): the project's own definitions are kept (%d tables)" % good, None)
     elif bad == 0:
         raise AnalysisError("parse_with_catalog: how the catalogue is merged into the project's tables was not recognised")
+
+
+def _from_split(n):
+    """does the node derive from a column of a `split`-ted line"""
+    return any(x[0] == "call" and short_callee(x[1]) in ("split", "splitn", "split_terminator") for x in walk(n))
+
+
+def check_kyg_numbers(ctx, prog, kp, rule="c18.kyg"):
+    """"KyGananciasSolares.txt (either decimal separator ...)": every number of the file is a column of a `;`-separated line, written with `,` or `.`
+    depending on the machine that ran HULC.  Each f32 parse of such a column has to go through the `,` -> `.` replacement (directly or in a helper);
+    one that does not makes the whole file unreadable when that column carries a comma."""
+    ksc = Scope(prog, kp)
+    nparse, nbad = 0, 0
+    seen = {}
+    for sc in ksc.all_scopes():
+        for b, t in sc.body.calls():
+            nm = callee_name(t) or ""
+            if not (short_callee(nm) == "parse" and "str" in nm):
+                continue
+            g = (callee_name(t) and t["f"]["k"].get("g")) or []
+            if not any(x in ("f32", "f64") for x in g):
+                continue
+            arg = strip(sc.operand(t["args"][0]))
+            if not _from_split(arg) and prog.root_of(sc.fn).id == kp.id:
+                continue
+            nparse += 1
+            has_replace = any(x[0] == "call" and short_callee(x[1]) == "replace" and any(strip(y)[0] in ("k", "s", "kx") and "," in str(strip(y)[1]) for y in x[2][1:]) for x in walk(arg))
+            idx = [str(strip(x[2][1])[1]) for x in walk(arg) if x[0] == "call" and short_callee(x[1]) in ("index", "nth", "get") and len(x[2]) == 2 and strip(x[2][1])[0] == "k"]
+            base = "%s|number|%s" % (rule, "col" + idx[0] if idx else show(arg)[:40])
+            seen[base] = seen.get(base, 0) + 1
+            key = base if seen[base] == 1 else "%s#%d" % (base, seen[base])
+            if has_replace:
+                ctx.ok(rule, key, "parse::<f32>(%s) via decimal-comma replacement" % show(arg)[:90], sc.fn.loc(t.get("ln")))
+            else:
+                nbad += 1
+                ctx.violation(rule, key, "column %s of a `;`-separated line is parsed as f32 without the `,` -> `.` replacement the other columns get: a file written with decimal "
+                              "commas in this line is rejected as a whole" % (idx[0] if idx else "?"), sc.fn.loc(t.get("ln")))
+    ctx.floor(rule, "float parses of columns in kyg::parse", nparse, 17)
+
+
+def check_kyg_optional_columns(ctx, prog, kp, rule="c18.kyg"):
+    """"old and new column layouts": later HULC versions append columns to the element lines.  A column i can be read exactly when the line has more than
+    i columns.  Reading it only under `columns > K` with K > i ties it to columns that came later: a line of an intermediate version (the shipped
+    00_plurif_s3_v0_d3/KyGananciasSolares.txt has windows with 9 columns and walls with 6) loses the columns it does carry."""
+    ksc = Scope(prog, kp)
+    n = 0
+    seen = {}
+    for sc in ksc.all_scopes():
+        for b, t in sc.body.calls():
+            nm = short_callee(callee_name(t) or "")
+            if nm not in ("index", "get") or len(t["args"]) != 2:
+                continue
+            vec, ix = strip(sc.operand(t["args"][0])), strip(sc.operand(t["args"][1]))
+            if not _from_split(vec):
+                continue
+            if ix[0] != "k":
+                # `get(i)` in a local closure applied to constant column numbers: one optional column per call of the closure
+                from ..mir import callee_id
+                root = prog.root_of(sc.fn)
+                if nm == "get" and sc.fn.id != root.id and ix[0] == "arg":
+                    calls = [t_ for _, t_ in root.body.calls() if callee_id(t_) == sc.fn.id]
+                    rsc = Scope(prog, root)
+                    for t_ in calls:
+                        tup = strip(rsc.operand(t_["args"][1]))
+                        cols = [strip(x)[1] for x in (tup[3] if tup[0] == "agg" else [tup]) if strip(x)[0] == "k"]
+                        if cols:
+                            n += 1
+                            ctx.ok(rule, "%s|optional-column|%s" % (rule, cols[0]), "column %s is read whenever the line has it (get(i) in a local closure)" % cols[0], root.loc(t_.get("ln")))
+                continue
+            try:
+                i = int(ix[1])
+            except ValueError:
+                continue
+            gates = []
+            for (_, d, c, tk) in sc.conditions(b):
+                c = strip(c)
+                if c[0] == "bin" and c[1] in ("Gt", "Ge") and bool_taken(tk) and strip(c[3])[0] == "k" and \
+                        any(x[0] == "call" and short_callee(x[1]) == "len" for x in walk(strip(c[2]))) and _from_split(strip(c[2])):
+                    k = int(strip(c[3])[1])
+                    gates.append(k if c[1] == "Gt" else k - 1)
+            if nm == "index" and not gates:
+                continue          # a mandatory column (the line is rejected when too short)
+            n += 1
+            base = "%s|optional-column|%d" % (rule, i)
+            seen[base] = seen.get(base, 0) + 1
+            key = base if seen[base] == 1 else "%s#%d" % (base, seen[base])
+            if gates and max(gates) > i:
+                ctx.violation(rule, key, "column %d is read only when the line has more than %d columns: a line with %d..%d columns carries it and loses it (old layouts: "
+                              "windows with 9 columns, walls with 6)" % (i, max(gates), i + 1, max(gates)), sc.fn.loc(t.get("ln")))
+            else:
+                ctx.ok(rule, key, "column %d is read whenever the line has it" % i, sc.fn.loc(t.get("ln")))
+    ctx.floor(rule, "optional columns of element lines", n, 9)
+
+
+def check_quoted_values(ctx, prog, rule="c18.quoted"):
+    """"quoted and bare strings ... parsing recovers ... every attribute value": AttrMap::insert decides Number or String by trying to parse the text as f32.
+    A value written in quotes is text (`PHONE = "000000000"`, `GROUP = "2020"`, `"inf"`): once its quotes are taken off it must not reach that test, or the
+    text is replaced by a number (and `GROUP` of a frame stops being readable as a string).  Every value handed to AttrMap::insert in the block parser is
+    followed back through its definitions: none may be the quoted text with the quotes trimmed off."""
+    from .c06 import local_defs
+    pa = prog.find("hulc::bdl::blocks::parse_attributes")
+    n = 0
+
+    def unquotes(node):
+        return any(x[0] == "call" and short_callee(x[1]) in ("trim_matches", "trim_start_matches", "trim_end_matches", "strip_prefix", "strip_suffix", "replace") and
+                   any(strip(y)[0] in ("k", "s", "kx") and '"' in str(strip(y)[1]) for y in x[2][1:]) for x in walk(node))
+
+    def quoted_path(sc):
+        """a quoted value is stored as text on a path of its own: a map insert that does not go through AttrMap::insert, under a test for the opening quote"""
+        for b, t in sc.body.calls():
+            nm = callee_name(t) or ""
+            if short_callee(nm) == "insert" and ("BTreeMap" in nm or "HashMap" in nm) and not nm.endswith("AttrMap::insert"):
+                for (_, d, c, tk) in sc.conditions(b):
+                    if bool_taken(tk) and any(x[0] == "call" and short_callee(x[1]) in ("starts_with", "strip_prefix") and
+                                              any(strip(y)[0] in ("k", "s", "kx") and '"' in str(strip(y)[1]) for y in x[2][1:]) for x in walk(strip(c))):
+                        return True
+        return False
+    for sc in Scope(prog, pa).all_scopes():
+        for b, t in sc.body.calls():
+            nm = callee_name(t) or ""
+            if not nm.endswith("AttrMap::insert") or len(t["args"]) < 3:
+                continue
+            n += 1
+            v = strip(sc.operand(t["args"][2]))
+            nodes = [v]
+            if v[0] == "var":
+                for l, defs in local_defs(sc, v[2]).items():
+                    nodes += [d[1] for d in defs]
+            key = "%s|parse_attributes|insert" % rule
+            if any(unquotes(x) for x in nodes) and not quoted_path(sc):
+                ctx.violation(rule, key, "a quoted value has its quotes trimmed off and then goes through AttrMap::insert's number test: `PHONE = \"000000000\"` becomes "
+                              "Number(0.0), `GROUP = \"2020\"` a number no typed element can read as its group", sc.fn.loc(t.get("ln")))
+            else:
+                ctx.ok(rule, key, "a value written in quotes is stored as text on a path of its own, or no quote is ever removed before the number test", sc.fn.loc(t.get("ln")))
+    ctx.floor(rule, "AttrMap::insert calls in parse_attributes", n, 1)
 
 
 def check_parents(ctx, prog, fn, variants, spec, rule="c18.parent"):
